@@ -4,13 +4,16 @@
     c08 <Base> <bag n|e|f> <vals n|e|f> <len> <cap> | <recv> <class> <k> <len> <cap> <bag> <vals> <resultHasMeta 0|1> <Method> | …
 
   class ∈ derive (Clone + k appended checks) | copymeta | metaself | bagwrite | rebuild (constructor-built,
-  header/bag/vals given) | access (returns an existing inner schema: no model step, structure not compared).
+  header/bag/vals given) | access / alias (an accessor returns an existing inner schema — not yet / already in the
+  live list: the model step is `applyXOp … .access`, no store effect; "distinct schema" does not apply to an accessor
+  (the protocol's 1), "nothing changed" is COMPUTED from the observations like for every other class; structure not compared).
   Output:  V:<fresh>:<changed,…>;…  S:b<idx,…>a<idx,…>v<idx,…>h<len>/<cap>;…  <TAB>  V:1:;1:;…
   (model verdicts + predicted sharing structure, then the property oracle: every step fresh, nothing changed).
 -/
 import Gozod.Model.Store
+import Gozod.Model.StoreC08
 namespace Gozod.Drv.C08
-open Gozod.Store
+open Gozod.Store Gozod.StoreC08
 
 def splitOnBar : List String → List (List String)
   | [] => [[]]
@@ -51,6 +54,14 @@ structure St where
   verdicts : List String
   structs : List String
 
+/-- the verdict of an accessor step (classes access / alias), computed (round 4c, audit A LOW: it was the constant
+    "1:"): freshness does not apply to an accessor — the 1 is the protocol's, the harness writes the same —; which
+    live schemas changed is read off the observations before and after, as for every other class -/
+def accessVerdict (st : St) (σ' : Store) : String :=
+  let changed := (List.range st.live.length).filter
+    (fun j => (st.live[j]?.map (obs st.σ.heap)) != (st.live[j]?.map (obs σ'.heap)))
+  s!"1:{idxList changed}"
+
 def stepModel (cfg : Cfg) (st : St) : List String → Option St
   | [recv, cls, k, len, cap, bag, vals, rm, _method] => do
     let i ← recv.toNat?
@@ -59,12 +70,17 @@ def stepModel (cfg : Cfg) (st : St) : List String → Option St
     let cap ← cap.toNat?
     let rs ← st.live[i]?
     if cls == "alias" then
+      -- the accessor handed out live[k]: the op of the extended classes the theorems c08x_* are about
       let r ← st.live[k]?
-      some { st with deps := st.deps ++ (st.deps.filter (fun d => d.1 == k)).map (fun d => (st.live.length, d.2)),
-                     live := st.live ++ [r], verdicts := st.verdicts ++ ["1:"], structs := st.structs ++ ["-"] }
+      let (σ', _) := applyXOp cfg st.σ rs .access
+      some { st with σ := σ', deps := st.deps ++ (st.deps.filter (fun d => d.1 == k)).map (fun d => (st.live.length, d.2)),
+                     live := st.live ++ [r], verdicts := st.verdicts ++ [accessVerdict st σ'], structs := st.structs ++ ["-"] }
     else if cls == "access" then
-      let (σ', r) := build st.σ len cap bag vals
-      some { st with σ := σ', live := st.live ++ [r], verdicts := st.verdicts ++ ["1:"], structs := st.structs ++ ["-"] }
+      -- the accessor handed out an inner schema the history has not seen: no store effect (`applyXOp … .access`);
+      -- the schema then enters the history's store with the header the run observed, so that later steps can use it
+      let (σ0, _) := applyXOp cfg st.σ rs .access
+      let (σ', r) := build σ0 len cap bag vals
+      some { st with σ := σ', live := st.live ++ [r], verdicts := st.verdicts ++ [accessVerdict st σ'], structs := st.structs ++ ["-"] }
     else
       let cfg : Cfg := { cfg with grow := fun _ => cap }   -- the runtime's growslice answer, as observed
       let op : Option Op :=
